@@ -639,6 +639,8 @@ pub fn random_op(r: &mut Rng, u: &Universe, w: &World, last: &Option<Op>, live: 
                 let i = r.below(pool.len() as u64) as usize;
                 answers.push(Some(pool.swap_remove(i)));
             }
+            // identity mapping targets the page at the frame's address: not inside the recursive slot
+            let how = if how == 2 && w.rix >= 0 && ((frame >> 39) & 0x1ff) as i64 == w.rix { 0 } else { how };
             let page = if how == 2 { canon(frame) } else { page };
             Op::Map { s, page, frame, f, pf, how, answers }
         }
@@ -745,17 +747,16 @@ fn pick_recursive_index(r: &mut Rng) -> i64 {
     for s in [0usize, 32, 70, 128, 226, 227] {
         used[s] = true;
     }
-    let cands: Vec<i64> = [1i64, 2, 3, 5, 17, 42, 100, 127, 129, 200, 254, 255, 77, 150]
-        .iter()
-        .copied()
-        .filter(|&c| !used[c as usize])
-        .collect();
-    let extra = r.below(254) as i64 + 1;
-    if !used[extra as usize] && r.chance(1, 3) {
-        extra
-    } else {
-        *r.pick(&cands)
+    // The choice must not depend on ASLR (traces are reproducible from the seed): candidates
+    // are taken from regions the kernel never uses for PIE binaries, mmap or the stack; the
+    // (practically impossible) case of an occupied candidate moves on to the next one.
+    let cands: [i64; 12] = [1, 2, 3, 5, 17, 42, 100, 127, 129, 150, 77, 90];
+    let extra = r.below(150) as i64 + 1;
+    let first = if r.chance(1, 3) && ![32i64, 70, 128].contains(&extra) { extra } else { *r.pick(&cands) };
+    if !used[first as usize] {
+        return first;
     }
+    *cands.iter().find(|&&c| !used[c as usize]).expect("no free recursive slot")
 }
 
 pub fn rec_va(rix: i64) -> u64 {
